@@ -68,7 +68,9 @@ void harness(void)
     d->refMultipleDDicts = ZSTD_rmd_refSingleDDict;  d->ddictSet = NULL;
     { int hb; for (hb = 0; hb < ZSTD_FRAMEHEADERSIZE_MAX; hb++) d->headerBuffer[hb] = nondet_uchar(); }
     d->fParams.windowSize = nondet_u64(); d->fParams.frameType = nondet_bool() ? ZSTD_skippableFrame : ZSTD_frame; d->fParams.headerSize = nondet_uint();
-    d->previousDstEnd = nondet_bool() ? (const void*)dst : NULL;
+    /* "no history yet" is represented by a valid (in-arena) pointer instead of NULL: ZSTD_checkContinuity subtracts these
+     * pointers, and CBMC cuts every path after arithmetic on NULL; the semantics (empty history) are the same */
+    d->previousDstEnd = nondet_bool() ? (const void*)dst : (const void*)(g_arena + 8);
     d->prefixStart = d->previousDstEnd; d->virtualStart = d->previousDstEnd; d->dictEnd = NULL;
     /* stage invariant */
     if (d->stage == ZSTDds_getFrameHeaderSize) VASSUME(d->expected == ZSTD_startingInputLength(d->format));
